@@ -198,6 +198,17 @@ namespace _ST_PRIVATE
         format_numeric_string(format, output, formatter.text(), formatter.size(), ntype);
     }
 
+    // Narrow an integer of any width to the code point passed to format_char;
+    // anything outside the Unicode range maps to an invalid code point, so it
+    // is rendered as the replacement character instead of being truncated.
+    template <typename int_T>
+    ST_NODISCARD
+    inline int char_code_point(int_T value)
+    {
+        typedef typename std::make_unsigned<int_T>::type uint_T;
+        return (static_cast<uint_T>(value) > 0x10FFFFu) ? -1 : static_cast<int>(value);
+    }
+
     inline void format_char(const ST::format_spec &format,
                             ST::format_writer &output, int ch)
     {
